@@ -58,9 +58,10 @@ type (
 		workers     atomic.Value
 		workerIdCnt int32
 
-		waitWg  sync.WaitGroup
-		storage storage.Storage
-		logger  log4g.Logger
+		waitWg    sync.WaitGroup
+		persistWg sync.WaitGroup
+		storage   storage.Storage
+		logger    log4g.Logger
 	}
 
 	Stats struct {
@@ -116,7 +117,7 @@ func (s *Scanner) Run(ctx context.Context, events chan<- *model.Event) error {
 // WaitAllJobsDone closes the Scanner object
 func (s *Scanner) WaitAllJobsDone() error {
 	var err error
-	if !utils.WaitWaitGroup(&s.waitWg, time.Minute) {
+	if !utils.WaitWaitGroup(&s.waitWg, time.Minute) || !utils.WaitWaitGroup(&s.persistWg, time.Minute) {
 		err = errors.New("close timeout")
 	}
 	s.logger.Info("Closed, err=", err)
@@ -170,16 +171,18 @@ func (s *Scanner) runPersistState(ctx context.Context) {
 	ticker := time.NewTicker(time.Second *
 		time.Duration(s.cfg.StateStoreIntervalSec))
 
-	s.waitWg.Add(1)
+	s.persistWg.Add(1)
 	go func() {
 		for utils.Wait(ctx, ticker) {
 			if err := s.persistState(); err != nil {
 				s.logger.Error("Unable to persist state, cause=", err)
 			}
 		}
+		// the final persist must see the last setOffset: wait for the workers (and the sync job) first
+		s.waitWg.Wait()
 		_ = s.persistState()
 		s.logger.Warn("Persist state stopped.")
-		s.waitWg.Done()
+		s.persistWg.Done()
 	}()
 }
 
